@@ -18,7 +18,9 @@ def file_mode_for_path(path):
     from black import parse_pyproject_toml
 
     mode = FileMode()
-    pyproject_path = find_pyproject_toml((), path)
+    # the project root is searched from the file and not from the current
+    # directory (the second argument is only used for sources named "-")
+    pyproject_path = find_pyproject_toml((str(path),))
     if pyproject_path is not None:
         config = parse_pyproject_toml(pyproject_path)
 
